@@ -9,8 +9,12 @@ Decided (DESIGN.md section 5, C14):
   C14.3 BOUND     in the set_parameter / init_handle flow, an array of known extent indexed by a loop counter bounded
                   by a caller-controlled configuration count (or memcpy'd with a caller-controlled length) is
                   dominated by a comparison of that count with a literal.
-  C14.4 BLOCK     the set of blocking primitives reachable from each EB_API function equals the frozen allow-list.
+  C14.4 BLOCK     the set of blocking primitives reachable from each EB_API function equals the frozen allow-list; a teardown
+                  call joins threads only after it has itself signalled the shutdown.
+  C14.6 DANGLE    an API function that frees what a process-global pointer designates resets the pointer or guards a repeated call.
+  C14.7 LAZY      decoder teardown touches lazily created (first-frame) resources only when they exist.
 """
+from engine.classes import Classes
 from engine.facts import pstr, strip, callee_name, subexprs, fields_in, last_field, root_of, AnalysisBroken
 from engine.locks import LockAnalysis
 from engine.nulldom import NullDom
@@ -19,7 +23,7 @@ PID = 'C14'
 
 META = {
     'technique': 'CFG may-analysis for NULL dominance + lockset dataflow + dominance of range tests + call-graph reachability of blocking primitives',
-    'text': 'Decides four structural clauses on every path of all EB_API functions: NULL-argument tests dominate every dereference (interprocedural), no API exit leaves a mutex held (so a rejected configuration leaves the handle usable), caller-controlled counts are range-tested before bounding array accesses in the set_parameter flow, and only allow-listed blocking primitives are reachable per API function. Structure, not behaviour: it does not execute call sequences.',
+    'text': 'Decides four structural clauses on every path of all EB_API functions: NULL-argument tests dominate every dereference (interprocedural), no API exit leaves a mutex held (so a rejected configuration leaves the handle usable), caller-controlled counts are range-tested before bounding array accesses in the set_parameter flow, only allow-listed blocking primitives are reachable per API function, a teardown call joins the pipeline threads only after signalling their shutdown itself, a teardown that frees what a process-global pointer designates is safe to repeat, and decoder teardown touches first-frame resources only when they exist. Structure, not behaviour: it does not execute call sequences.',
     'note': 'clang 14 front end/CFG; production flags from CMake (-DNDEBUG); handle-internal state (p_component_private) assumed valid; function-pointer targets resolved from address-taken facts',
     'ref': 'DESIGN.md section 5 C14',
 }
@@ -353,6 +357,139 @@ def rule5(P, rep):
            nontrivial=True)
 
 
+def rule6(P, rep, apis):
+    """C14.6-DANGLE: an API function that frees the storage a process-global pointer designates must leave that pointer reset, so
+    that the same call made again (double deinit is inside the property's quantifier) finds nothing to free instead of walking
+    freed memory.  Decided per (API function, global): locals that alias the global (assigned from it or from a chain walked from
+    it) and are handed to free(); a store to the global after the last such free is required."""
+    FREES = ('free', 'svt_aligned_free', '_aligned_free')
+    n = 0
+    for f in apis:
+        glob_alias = {}
+        ch = True
+        while ch:
+            ch = False
+            for ev in f.events(('decl', 'st')):
+                e = ev.get('e')
+                if e is None:
+                    continue
+                name, rhs = (ev['n'], e) if ev['k'] == 'decl' else ((strip(e[2])[1], e[3]) if e[0] == 'a' and e[1] == '=' and strip(e[2])[0] == 'v' and strip(e[2])[2] == 'l' else (None, None))
+                if not name:
+                    continue
+                r = strip(rhs)
+                root = root_of(r)
+                if root is None:
+                    continue
+                g = None
+                if root[2] == 'g' and r[0] == 'v':
+                    g = root[1]
+                elif root[2] == 'l' and root[1] in glob_alias and r[0] in ('v', 'm'):
+                    g = glob_alias[root[1]]
+                if g and glob_alias.get(name) != g:
+                    glob_alias[name] = g; ch = True
+        if not glob_alias:
+            continue
+        freed = {}
+        for ev, nm in f.calls(FREES):
+            a = strip(ev['e'][2][0]) if ev['e'][2] else None
+            if a is not None and a[0] == 'v' and a[1] in glob_alias:
+                freed.setdefault(glob_alias[a[1]], []).append(ev)
+        for g, evs in sorted(freed.items()):
+            n += 1
+            last = max(ev.get('l', 0) for ev in evs)
+            resets = [ev for ev in f.events(('st',)) if ev['e'][0] == 'a' and ev['e'][1] == '=' and strip(ev['e'][2])[0] == 'v' and strip(ev['e'][2])[1] == g and strip(ev['e'][2])[2] == 'g']
+            ok = any(ev.get('l', 0) > last for ev in resets)
+            how = 'the global is reset afterwards'
+            if not ok:
+                # idempotence guard: a member that is cleared after the last free is tested, with an early return, before the first free
+                first = min(ev.get('l', 0) for ev in evs)
+                cleared = {last_field(strip(ev['e'][2])) for ev in f.events(('st',)) if ev['e'][0] == 'a' and ev['e'][1] == '=' and strip(ev['e'][2])[0] == 'm' and
+                           strip(ev['e'][3])[0] == 'l' and strip(ev['e'][3])[1] == 0 and ev.get('l', 0) > last}
+                for bid in f.reach():
+                    b = f.blocks[bid]
+                    c = b.get('fullcond')
+                    if c is None or b.get('tk') != 'IfStmt' or b.get('tl', 0) >= first:
+                        continue
+                    tested = {x[1] for x in subexprs(c) if x[0] == 'm'} & cleared
+                    rets = [s_ for s_ in b['succ'] if s_ is not None and any(e2['k'] == 'ret' for e2 in f.blocks[s_]['ev'])]
+                    if tested and rets and all(f.blk_dominates(bid, ev['b']) if hasattr(f, 'blk_dominates') else True for ev in evs):
+                        ok = True
+                        how = 'a repeated call returns early: %s is cleared after the release and tested before it' % sorted(tested)[0].split('.')[1]
+            rep.ob('C14.6-DANGLE', '%s/%s' % (f.name, g), ok, f.loc(evs[-1]),
+                   ('the entries reachable from the process-global %s are freed; %s' % (g, how)) if ok else
+                   ('%s frees the entries reachable from the process-global %s and leaves it pointing at them: calling %s again walks and frees them a second time' % (f.name, g, f.name)))
+    rep.floor('C14.6-DANGLE', 1)
+
+
+def rule7(P, rep, apis):
+    """C14.7-LAZY: the decoder creates its multi-thread resources lazily, when the first frame header arrives
+    (dec_system_resource_init), not in svt_av1_dec_init.  Teardown can therefore run before they exist (init; deinit).  Every call
+    made by a teardown API function to a function that dereferences such lazily created handle members must be control-dependent
+    on a test of one of them."""
+    C = Classes(P)
+    H = 'EbDecHandle.'
+    init_fns = P.reachable_from([P.fn('svt_av1_dec_init'), P.fn('svt_av1_dec_init_handle')])
+    stores = {}
+    for f in P.fns:
+        if f.lib != 'Decoder' or f.nocfg:
+            continue
+        for ev in f.events(('st',)):
+            e = ev['e']
+            if e[0] == 'a' and e[1] == '=':
+                lf = last_field(strip(e[2]))
+                if lf and lf.startswith(H) and strip(e[2])[0] == 'm':
+                    r = strip(e[3])
+                    if not (r[0] == 'l' and r[1] == 0):
+                        stores.setdefault(lf, set()).add(f)
+    ptr_fields = {H + fd['n'] for fd in P.record('EbDecHandle')['fields'] if fd.get('ptr') or '*' in fd.get('t', '')}
+    lazy = {lf for lf, fs in stores.items() if lf in ptr_fields and fs and not (fs & set(init_fns))}
+    if not lazy:
+        raise AnalysisBroken('no lazily created decoder handle member found')
+    # functions that dereference a lazy member of the handle
+    def derefs_lazy(g):
+        out = set()
+        for ev in g.events():
+            e = ev.get('e')
+            if e is None:
+                continue
+            for x in subexprs(e):
+                if x[0] in ('m', 'i') or (x[0] == 'u' and x[1] == '*'):
+                    b = strip(x[3]) if x[0] == 'm' and x[2] else (strip(x[1]) if x[0] == 'i' else (strip(x[2]) if x[0] == 'u' else None))
+                    if b is not None and b[0] == 'm' and b[1] in lazy:
+                        out.add(b[1])
+                if x[0] == 'c':
+                    for a in x[2]:
+                        a = strip(a)
+                        if a and a[0] == 'm' and a[1] in lazy and callee_name(x) in ('svt_post_semaphore', 'svt_block_on_semaphore', 'svt_block_on_mutex', 'svt_release_mutex'):
+                            out.add(a[1])
+        return out
+    n = 0
+    for f in apis:
+        if f.name not in ('svt_av1_dec_deinit', 'svt_av1_dec_deinit_handle'):
+            continue
+        for ev, nm in f.calls():
+            if not nm:
+                continue
+            for t in P.resolve(nm, f):
+                if t.nocfg or t.lib != 'Decoder':
+                    continue
+                used = derefs_lazy(t)
+                if not used:
+                    continue
+                n += 1
+                tested = set()
+                for kind, cond, line in f.ctl_chain(ev):
+                    if cond is not None and kind == 'if':
+                        tested |= {x[1] for x in subexprs(cond) if x[0] == 'm' and x[1] in lazy}
+                ok = bool(tested)
+                rep.ob('C14.7-LAZY', '%s/%s' % (f.name, t.name), ok, f.loc(ev),
+                       ('%s uses the lazily created %s; the call is made only when %s exists' % (t.name, sorted(x.split('.')[1] for x in used)[:3], sorted(x.split('.')[1] for x in tested)[0])) if ok else
+                       ('%s dereferences %s, which exist only after the first frame header was parsed, and is called unconditionally: svt_av1_dec_init followed by %s (threads > 1, nothing decoded) crashes' %
+                        (t.name, sorted(x.split('.')[1] for x in used)[:4], f.name)))
+    rep.analysed_lazy = sorted(lazy)
+    rep.floor('C14.7-LAZY', 1)
+
+
 def run(P, rep, tier):
     apis = api_functions(P)
     if len(apis) < 20:
@@ -373,6 +510,8 @@ def run(P, rep, tier):
     rule3(P, rep)
     rule4(P, rep, apis)
     rule5(P, rep)
+    rule6(P, rep, apis)
+    rule7(P, rep, apis)
     rep.floor('C14.1-NULLDOM', 30)
     rep.floor('C14.2-PAIR', 1)
     rep.floor('C14.3-BOUND', 5)
